@@ -103,6 +103,21 @@ pub fn ev_search<V: Val>(
     }));
 }
 
+/// a search method called on an automaton of the other match kind: documented to panic at once
+pub fn ev_mismatch<V: Val>(t: &mut Tracer, h: u32, pma: &Pma<V>, method: &str, entry: &str, hay: &Rc<Vec<u8>>) {
+    let r = catch_unwind(AssertUnwindSafe(|| pma.search_all(method, entry, hay, (hay.len() + 1) * 64 + 16)));
+    let (outcome, hoplimit, capped) = match r {
+        Ok((_, _, _, _, capped)) => ("returned".to_string(), false, capped),
+        Err(e) => {
+            let m = panic_msg(e);
+            let hl = m.contains(daachorse::verif_hooks::HOP_LIMIT_MESSAGE);
+            (format!("panic: {m}"), hl, false)
+        }
+    };
+    t.emit(json!({"ev": "mismatch", "h": h, "method": method, "entry": entry, "hay": hay.as_slice(),
+                  "outcome": outcome, "hoplimit": hoplimit, "capped": capped}));
+}
+
 pub fn ev_roundtrip<V: Val>(t: &mut Tracer, h: u32, pma: &Pma<V>, trail: &[u8]) -> (u32, Pma<V>) {
     let h2 = t.handle();
     let bytes = pma.serialize();
@@ -239,6 +254,20 @@ fn small_typed<V: Val>(t: &mut Tracer, rng: &mut Rng, cx: &Ctx, var: Var, kind: 
     }
     let Some((h, pma)) = run_block(t, rng, cx, &spec, &vals, &hays, &extra, true) else { return };
     let methods = methods_for(cx.prop, kind);
+    if cx.prop == "C13" {
+        // every search call returns: also the calls the documentation says panic at once
+        let wrong: &[&str] = if kind == Kind::Std { &["lm"] } else { &["ov", "find", "nosuf"] };
+        for m in wrong {
+            for entry in ["slice", "iter"] {
+                if *m == "lm" && entry == "iter" {
+                    continue;
+                }
+                for hay in hays.iter().take(2) {
+                    ev_mismatch(t, h, &pma, m, entry, hay);
+                }
+            }
+        }
+    }
     if matches!(cx.prop, "C09" | "C06" | "C07") || rng.chance(1, 4) {
         let ntrail = rng.range(0, 5);
         let trail = gen_bytes(rng, ntrail);
